@@ -1061,6 +1061,7 @@ static PyObject* max_step(PyObject *self, PyObject *args, PyObject *kwrds)
 
     if (!PyArg_ParseTupleAndKeywords(args, kwrds, "OO|iO", kwlist, &x,
         &dims, &ind, &sigma)) return NULL;
+    if ((PyObject *) sigma == Py_None) sigma = NULL;
 
     O = PyDict_GetItemString(dims, "l");
 #if PY_MAJOR_VERSION >= 3
